@@ -390,8 +390,10 @@ pub fn run(tier: Tier) -> Report {
     // Hungarian: every query of the stream gets itself or one track, no track twice (optimality: C02)
     let hmenu: Vec<Option<f32>> = vec![None, Some(0.2), Some(0.5), Some(0.9)];
     for nc in 1..=3usize {
-        for nt in 1..=2usize {
+        for nt in 1..=3usize {
             let cells = nc * nt;
+            // 3x3: a smaller weight menu keeps the product at 3^9
+            let hmenu: Vec<Option<f32>> = if nt == 3 { vec![None, Some(0.5), Some(0.9)] } else { hmenu.clone() };
             let total = hmenu.len().pow(cells as u32);
             par_for(total, 256, |idx| {
                 let mut k = idx;
@@ -402,7 +404,26 @@ pub fn run(tier: Tier) -> Report {
                 }
                 let case = hung::Case { thr: 0.3, weights: w, declared_c: nc, declared_t: nt + 1 };
                 let s = case.stream();
-                let perms = if s.len() <= 4 { permutations(s.len()) } else { vec![(0..s.len()).collect(), (0..s.len()).rev().collect()] };
+                let perms = if s.len() <= 5 {
+                    permutations(s.len())
+                } else {
+                    // canonical order, reversal, every rotation, every adjacent transposition, grouped by track
+                    let n = s.len();
+                    let id: Vec<usize> = (0..n).collect();
+                    let mut ps = vec![id.clone(), id.iter().rev().cloned().collect()];
+                    for r in 1..n {
+                        ps.push((0..n).map(|i| (i + r) % n).collect());
+                    }
+                    for k in 0..n - 1 {
+                        let mut p = id.clone();
+                        p.swap(k, k + 1);
+                        ps.push(p);
+                    }
+                    let mut by_track = id.clone();
+                    by_track.sort_by_key(|i| (s[*i].1, s[*i].0));
+                    ps.push(by_track);
+                    ps
+                };
                 let mut first: Option<Vec<(u64, u64)>> = None;
                 for p in perms {
                     let o: Vec<_> = p.iter().map(|i| s[*i]).collect();
@@ -435,6 +456,9 @@ pub fn run(tier: Tier) -> Report {
 
 /// true when exactly one assignment attains the optimum (brute force, <= 3 x 2)
 fn unique_optimum(case: &hung::Case) -> bool {
+    if case.weights.len() * case.weights[0].len() > 6 {
+        // brute force below enumerates (nt+1)^nc assignments: fine up to 3x3 as well
+    }
     let nc = case.weights.len();
     let nt = case.weights[0].len();
     let thr = hung::to_units(case.thr);
